@@ -125,10 +125,10 @@ class MergeContract(Contract):
         mroot = W.fresh('mroot', Node)
         ro_cls = E.repo.cls('RunningOrder')
         m_cls = E.repo.cls(self.cls_name)
-        ro = SObj(ro_cls, st.new_obj(ro_cls))
-        st.objs[ro.oid] = {'_xml': SNode(root), '_base_tag': NONE}
-        me = SObj(m_cls, st.new_obj(m_cls))
-        st.objs[me.oid] = {'_xml': SNode(mroot), '_base_tag': NONE}
+        # both objects are built by the real constructors (MosFile.__init__), so fields added there are present
+        st.locals = {}
+        (st, ro), = [r for r in E.instantiate(ro_cls, [SNode(root)], {}, st) if not isinstance(r[1], Raised)][:1]
+        (st, me), = [r for r in E.instantiate(m_cls, [SNode(mroot)], {}, st) if not isinstance(r[1], Raised)][:1]
         return st, {'self': me, 'ro': ro}
 
     # roots
@@ -182,6 +182,22 @@ class MergeContract(Contract):
         out += [(n, f) for n, f in ro_inv(W, ex.H, root, 'C14+C15+RO_Inv.preserved')]
         out += [(n, f) for n, f in ownership(ex.H, 'C13.ownership_preserved')]
         out += self.frame_clauses(cx, ex)
+        # the message object must not keep a reference to anything now linked into the running order
+        # (e.g. a converted story cached on the object and inserted by reference)
+        held = []
+
+        def collect(v, depth=0):
+            if isinstance(v, SNode):
+                held.append(v.t)
+            elif isinstance(v, SObj) and depth < 3 and (v.oid in ex.st.objs or v.init_fields):
+                for fv in ex.st.fields(v).values():
+                    collect(fv, depth + 1)
+        me = cx.a['self']
+        for fname, fv in ex.st.fields(me).items():
+            collect(fv)
+        for i, x in enumerate(held):
+            out.append(('C13.message_object_holds_no_reference_into_the_running_order#%d' % i,
+                        forall_nodes(1, lambda p: Imp(ex.H.mem(p, x), is_msg(p)))))
         out.append(('C14.messageID_unchanged', A(ex.H.find(root, W.lit('messageID')) == cx.H.find(root, W.lit('messageID')))))
         if self.cls_name not in ('RunningOrderReplace', 'MetaDataReplace'):
             b0, b1 = cx.H.find(root, W.lit('roCreate')), ex.H.find(root, W.lit('roCreate'))
